@@ -13,7 +13,10 @@ import (
 func init() { register("C12", checkC12) }
 
 func checkC12(c *Ctx, r *Report) {
-	r.Explanation = "R6 FIXPOINT: CalculateCanTerminate is the least fixpoint 'a left-hand side is productive iff every right-hand symbol is' (terminals start productive, nonterminals unproductive), and returns every nonterminal still unproductive; who-writes CanTerminate: NewSymbol (true), SetNT (false) and the two fixpoints (true), nobody else. R2 ORDER: every right-hand symbol lookup in RuleVistor.Process is nil-tested with a diagnostic panic before use; in BuildLALR1 the rule-less-nonterminal test and the productivity test dominate the automaton construction; ParseAndBuild returns Parse's error. Not decided: that exactly the usable grammars are accepted (the converse direction quantifies over all grammars); the 2000-state limit is read and reported."
+	r.Explanation = "R6 FIXPOINT: CalculateCanTerminate is the least fixpoint 'a left-hand side is productive iff every right-hand symbol is' (terminals start productive, nonterminals unproductive), and returns every nonterminal still unproductive; who-writes CanTerminate: NewSymbol (true), SetNT (false) and the two fixpoints (true), nobody else. R2 ORDER: every right-hand symbol lookup in RuleVistor.Process is nil-tested with a diagnostic panic before use; in BuildLALR1 the rule-less-nonterminal test and the productivity test dominate the automaton construction; ParseAndBuild returns Parse's error. C12.c (prerequisite C11.a): character literals first seen in a precedence list or a rule reach the declaration list on every non-error exit, so the undefined-symbol rejection cannot hit a symbol the file introduced. Not decided: that exactly the usable grammars are accepted (beyond C12.c the converse direction quantifies over all grammars); the 2000-state limit is read and reported."
+	// C12.c — the converse direction, as far as it is structural: a symbol the grammar file introduces must reach the
+	// declaration list, or the rule visitor rejects a usable grammar as using an undefined symbol (prerequisite C11.a)
+	includeSome(r, "C12.c", func(sub *Report) { c11a(c, sub) }, "literal-tokens-flushed")
 	// C12.a
 	c12Flows(c, r)
 	if f := c.need(r, "C12.a", "Grammar", "Grammar", "CalculateCanTerminate"); f != nil {
